@@ -142,7 +142,7 @@ _ALL = {
              'identity is pid+tid on both sides and release asserts ownership (O1, O2); context-manager forms and '
              'barrier use acquire/release (O3); add/delete underneath are atomic (L2).',
              'Mutual exclusion over all interleavings follows from these only under A2; it is not model-checked here.'),
-    'C16': P(['M1', 'M2', 'M3', ('S6', r'memoize')],
+    'C16': P(['M1', 'M2', 'M3', 'M4', ('B2', r'Cache\.get/'), ('S6', r'memoize')],
              'concatenation-grammar reading of the key builder + wrapper dataflow (same key looked up and stored)',
              'Decides that the key builder separates positional from keyword segments by a delimiter no argument value '
              'can equal (M1 - violated: the delimiter is None, known finding); typed/ignore are applied to every kept '
@@ -157,7 +157,7 @@ _ALL = {
              'a fixpoint in one pass (H3 - violated, known finding); all comparisons run in one transaction (H4); '
              'FanoutCache.check covers every shard (S4, S6).',
              'Convergence for arbitrary damage combinations beyond these structural conditions is not decided.'),
-    'C18': P(['P1', 'P2', 'P3', 'P4', 'B5', 'L6'],
+    'C18': P(['P1', 'P2', 'P3', 'P4', 'B5', 'B6', 'L6'],
              'constant folding of the on-disk format against a pinned reference + state-tuple/constructor agreement',
              'Decides that pickled state matches the constructor for Cache/FanoutCache/Deque/Index (P1); settings are '
              'layered defaults < stored < arguments and counters inserted with OR IGNORE (P2); every on-disk format fact '
